@@ -143,12 +143,13 @@ def evaluate_e2e(spec):
     b = scenario.build(spec)
     pkts, bad, steered = apply_csum_plan(b, spec.get("csum", {}))
     wd = engine.workdir()
-    o1 = oracle.run_e2e(b, wd, pkts=pkts, opts={"c": True}, name="withc")
+    other = {k: v for k, v in (spec.get("opts") or {}).items() if k != "c"}       # the option is independent of the others (-g, -a, -m)
+    o1 = oracle.run_e2e(b, wd, pkts=pkts, opts=dict(other, c=True), name="withc")
     sig = oracle.base_failure(o1)
     if sig:
         return {"sig": "-c run: " + sig, "detail": (o1.run.exc or "")[-300:], "nontrivial": True, "labels": ["e2e"]}
     good = [p for i, p in enumerate(pkts) if i not in bad]
-    o2 = oracle.run_e2e(b, wd, pkts=good, name="filtered")
+    o2 = oracle.run_e2e(b, wd, pkts=good, opts=other or None, name="filtered")
     sig = oracle.base_failure(o2)
     if sig:
         return {"sig": "harness: filtered run " + sig, "detail": (o2.run.exc or "")[-300:], "nontrivial": False}
@@ -165,6 +166,7 @@ def evaluate_e2e(spec):
         detail = f"{len(k1)} packets with -c, {len(k2)} from the filtered capture; {len(bad)} corrupted, {steered} steered"
     kinds = sorted({c["kind"] for c in spec["conns"]})
     labels = ["e2e:" + "+".join(kinds), "bad:%d" % min(len(bad), 3), "steered:%d" % min(steered, 3)]
+    labels.append("with:" + ("".join(sorted(k for k, v in other.items() if v is not None and v is not False)) or "-"))
     labels += ["v6" if any((c.get("ep") or {}).get("v6") for c in spec["conns"]) else "v4only"]
     return {"sig": sig, "detail": detail, "nontrivial": bool(bad) and steered >= 1 and len(k2) > 0, "labels": labels, "evals": 2}
 
@@ -188,7 +190,15 @@ def e2e_spec(draw):
         conns.append(c)
     plan = {"bad": draw(st.lists(st.tuples(st.integers(0, 200), st.integers(0, 0xFFFF)).map(list), max_size=4)),
             "steer": draw(st.lists(st.tuples(st.integers(0, 200), st.integers(0, 3)).map(list), min_size=1, max_size=6))}
-    return {"conns": conns, "order": draw(st.lists(st.integers(0, 5), min_size=1, max_size=8)), "tseed": draw(st.integers(1, 500)), "csum": plan}
+    opts = {}
+    if draw(st.integers(0, 2)) == 0:
+        opts["g"] = True
+    if draw(st.integers(0, 3)) == 0:
+        opts["a"] = True
+    if draw(st.integers(0, 4)) == 0:
+        opts["m"] = draw(st.sampled_from([[], ["443:8081"]]))
+    return {"conns": conns, "order": draw(st.lists(st.integers(0, 5), min_size=1, max_size=8)), "tseed": draw(st.integers(1, 500)), "csum": plan,
+            "opts": opts}
 
 
 # ------------------------------------------------------------------ component: the per-packet verdict
